@@ -22,10 +22,10 @@ if [ "${1:-}" = "pytest" ]; then
 fi
 rc=0
 for c in "$@"; do
-  VERIF_REPO_ROOT="$scratch" ./check "$c" --tier "${TIER:-quick}" > "$scratch/out.txt" 2>&1; r=$?
+  VERIF_EVIDENCE_DIR="$scratch/evidence" VERIF_REPO_ROOT="$scratch" ./check "$c" --tier "${TIER:-quick}" > "$scratch/out.txt" 2>&1; r=$?
   echo "== $c exit=$r: $(grep -c '^VIOLATION' "$scratch/out.txt") violation lines; $(grep -m1 '^VIOLATION' "$scratch/out.txt" | cut -c1-300)"
   [ $r -eq 2 ] && grep -m3 INCONCLUSIVE "$scratch/out.txt" | cut -c1-400
   [ $r -ne 0 ] && rc=1
 done
-git -C /verif checkout -- evidence 2>/dev/null
+
 exit $rc
